@@ -15,6 +15,7 @@ CONSTANTS
   VarTypes <- VarTypesStd
   VarVals <- VarValsStd
   MaxOverlay = 0
+  TRSets <- NoTR
   MaxFaults = 1
   SeqFields <- SomeFieldNames
   LConc = TRUE
